@@ -24,7 +24,7 @@ PATHS = ("law", "block", "block_valid", "stream", "read_dedisp", "dmt", "dmt_val
 
 
 def REQUIRED(tier):
-    return [f"path:{p}" for p in PATHS] + ["regime:negative_delays", "regime:foff>0", "regime:dm<0", "law_checks", "elements_compared", "regime:multi_file_input", "path:block_second_reference", "tie_sweep_dms", "exact_half_sample_ties", "law_after_stream_checks", "file_depth:4", "file_depth:1", "file_depth:8", "regime:input_header_carries_a_dm", "path:block_same_dm_twice"]
+    return [f"path:{p}" for p in PATHS] + ["regime:negative_delays", "regime:foff>0", "regime:dm<0", "law_checks", "elements_compared", "regime:multi_file_input", "path:block_second_reference", "tie_sweep_dms", "exact_half_sample_ties", "law_after_stream_checks", "file_depth:4", "file_depth:1", "file_depth:8", "regime:input_header_carries_a_dm", "path:block_same_dm_twice", "regime:streamed_interior_subrange"]
 
 
 def cases(tier, seed):
@@ -303,21 +303,31 @@ def _paths(case, j, ctx):
         ctx.evaluated(); ctx.count("path:stream")
         try:
             gulp = int(rng.choice([n, 10 * n, max(1, n // 3), 7]))
-            ts = fil.dedisperse(dm, gulp=gulp, quiet=True, description="v")
+            span1 = int(d1.max()) - int(d1.min())
+            s0, ns_ = 0, n
+            if frng.random() < 0.4 and n - span1 >= 12:
+                # an interior sub-range streamed in several reads
+                s0 = int(frng.integers(1, max(2, (n - span1) // 3)))
+                ns_ = int(frng.integers(span1 + 2, n - s0)) if n - s0 > span1 + 2 else n - s0
+                gulp = int(frng.choice([max(1, ns_ // 3), 7, max(1, ns_ // 2)]))
+                ctx.count("regime:streamed_interior_subrange")
+                ts = fil.dedisperse(dm, gulp=gulp, start=s0, nsamps=ns_, quiet=True, description="v")
+            else:
+                ts = fil.dedisperse(dm, gulp=gulp, quiet=True, description="v")
             L = ts.data.size
             # the output declares its own time origin: first sample = input sample t_off
             t_off = int(round((ts.header.tstart - 58000.0) * 86400.0 / tsamp))
-            idx_ok = all(0 <= t_off + d1[c] and t_off + (L - 1) + d1[c] < n for c in range(nch)) if L > 0 else True
+            idx_ok = all(s0 <= t_off + d1[c] and t_off + (L - 1) + d1[c] < s0 + ns_ for c in range(nch)) if L > 0 else True
             if not idx_ok:
                 _viol(ctx, "stream-declared-length-needs-missing-samples", regime1,
-                      f"Filterbank.dedisperse declares {L} samples from input sample {t_off} but x[t+d_c] needs indices outside [0,{n}) (delays {int(d1.min())}..{int(d1.max())}, dm={dm})", one)
+                      f"Filterbank.dedisperse declares {L} samples from input sample {t_off} but x[t+d_c] needs indices outside [{s0},{s0 + ns_}) (delays {int(d1.min())}..{int(d1.max())}, dm={dm})", one)
             else:
                 want = sum(xf[c, t_off + d1[c] : t_off + d1[c] + L] for c in range(nch))
                 ctx.count("elements_compared", want.size)
-                if L != n - (int(d1.max()) - int(d1.min())):
-                    _viol(ctx, "stream-length", regime1, f"declared length {L} != n - delay span = {n - (int(d1.max()) - int(d1.min()))}", one)
+                if L != ns_ - span1:
+                    _viol(ctx, "stream-length", regime1, f"declared length {L} != nsamps - delay span = {ns_ - span1}", one)
                 elif not np.array_equal(ts.data.astype(np.float64), want):
-                    _viol(ctx, "stream-values", regime1, f"Filterbank.dedisperse != sum_c x[c,t+d_c] from t={t_off} (gulp={gulp}, dm={dm})", one)
+                    _viol(ctx, "stream-values", regime1, f"Filterbank.dedisperse != sum_c x[c,t+d_c] from t={t_off} (gulp={gulp}, dm={dm}, start={s0}, nsamps={ns_})", one)
                 if ts.header.dm != dm:
                     _viol(ctx, "stream-dm", regime1, f"header.dm {ts.header.dm} != {dm}", one)
         except Exception as exc:  # noqa: BLE001
